@@ -1,12 +1,15 @@
 //verif:dest internal/server/handlers/zz_verif_c07f.go
 //verif:replace@C07f path/filepath.Glob = c07fGlob
 //verif:replace@C04g path/filepath.Glob = c07fGlob
+//verif:replace@C03e path/filepath.Glob = c07fGlob
 //verif:replace@C02g path/filepath.Glob = c07fGlob
 //verif:replace@C07f (*github.com/mimecast/dtail/internal/user/server.User).HasFilePermission = c07fPerm
 //verif:replace@C04g (*github.com/mimecast/dtail/internal/user/server.User).HasFilePermission = c07fPerm
+//verif:replace@C03e (*github.com/mimecast/dtail/internal/user/server.User).HasFilePermission = c07fPerm
 //verif:replace@C02g (*github.com/mimecast/dtail/internal/user/server.User).HasFilePermission = c07fPerm
 //verif:replace@C07f (*github.com/mimecast/dtail/internal/server/handlers.readCommand).read = c07fRead
 //verif:replace@C04g (*github.com/mimecast/dtail/internal/server/handlers.readCommand).read = c07fRead
+//verif:replace@C03e (*github.com/mimecast/dtail/internal/server/handlers.readCommand).read = c07fRead
 //verif:replace@C02g (*github.com/mimecast/dtail/internal/server/handlers.readCommand).read = c07fRead
 
 package handlers
